@@ -1,8 +1,60 @@
 import Drv.Base
-open Lean Pdt
+import Drv.Blocks
+import PdtModel.Model.Write
+open Lean Pdt Pdt.Reader Pdt.Represent Pdt.Write
 namespace Drv
 
-/-- op handler of the `Write` layer (stub until the layer is built) -/
-def handleWrite (_op : String) (_j : Json) : Option (Except String Json) := none
+def wValOfJson (j : Json) : Except String Val :=
+  match j with
+  | .str s => pure (.text s.toList)
+  | .bool b => pure (.bool b)
+  | .obj _ =>
+    match j.getObjVal? "f" with
+    | .ok v => do let s ← v.getStr?; pure (.num s.toList)
+    | .error _ =>
+    match j.getObjVal? "i" with
+    | .ok v => do let i ← v.getInt?; pure (.int i)
+    | .error _ =>
+    match j.getObjVal? "d" with
+    | .ok v => do let s ← v.getStr?; pure (.dt s.toList)
+    | .error _ => throw "bad value object"
+  | _ => throw "bad value"
+
+def wColumnOfJson (j : Json) : Except String Column := do
+  let name ← getStr j "name"
+  let unit ← getStr j "unit"
+  let vals ← (← getArr j "values").mapM wValOfJson
+  pure ⟨name, unit, vals⟩
+
+def wTableValOfJson (j : Json) : Except String TableVal := do
+  let name ← getStr j "name"
+  let dests ← (← getArr j "destinations").mapM fun d => do let s ← d.getStr?; pure s.toList
+  let tr ← getBool j "transposed"
+  let cols ← (← getArr j "columns").mapM wColumnOfJson
+  pure ⟨name, dests, tr, cols⟩
+
+def wGetChar (j : Json) (k : String) : Except String Char := do
+  let s ← getStr j k
+  match s with
+  | [c] => pure c
+  | _ => throw s!"{k}: expected one character"
+
+def handleWrite (op : String) (j : Json) : Option (Except String Json) :=
+  match op with
+  | "write_csv" => some do
+    let ts ← (← getArr j "tables").mapM wTableValOfJson
+    let sep ← wGetChar j "sep"
+    let na ← getStr j "na_rep"
+    pure (str (writeCsv sep na ts))
+  | "read_rows" => some do
+    let sep ← wGetChar j "sep"
+    let text ← getStr j "text"
+    pure (arr ((readRows sep text).map rowToJson))
+  | "read_csv" => some do
+    let sep ← wGetChar j "sep"
+    let text ← getStr j "text"
+    let ext ← extOfJson (← j.getObjVal? "ext")
+    pure (resultToJson (readCsv ext sep text))
+  | _ => none
 
 end Drv
